@@ -1,5 +1,12 @@
 (* C11_Properties.v — the property theorems of C11 and nothing else.
 
+   A crontab ([ct]) is the crontab STRING, byte for byte, as written in the binding's
+   configuration / passed to Add: that is the identity the manager's map, the cron job's
+   closure and the bindings controller's comparison use.  Every theorem quantifies over
+   all strings, so spellings that differ only in whitespace are covered as what they are
+   for the code: different crontabs (C11_distinct_strings_fire_separately), each binding
+   still getting exactly one task per round of firings (C11_round_one_task_per_binding).
+
    [sm_run valid h] = the scheduleManager after the history [h] of Add/Remove calls on
    (crontab, id) pairs ([valid c] = cron.Parse accepts crontab c); [cron s] = the entries
    registered in the cron library, each with the crontab it sends when it fires;
@@ -10,8 +17,9 @@ From Coq Require Import Permutation.
 From Verif Require Import Common C11_Model C11_Spec C11_Proofs.
 
 (* the whole decidable predicate P of C11_Spec (cron entries after every operation of a
-   system of hooks sharing one manager; per-hook answers to every firing) holds of the
-   model on EVERY input *)
+   system of hooks sharing one manager; per-hook answers to every firing - a string
+   handed to the controllers, one cron entry's job run, or a round in which every cron
+   entry's job is run once) holds of the model on EVERY input *)
 Theorem C11_P_holds : forall i, P i (run_model i) = true.
 Proof. exact P_holds. Qed.
 Print Assumptions C11_P_holds.
@@ -59,7 +67,7 @@ Theorem C11_fire_exactly_bindings : forall valid bs calls s0 c h,
   NoDup (map b_id bs) ->
   let m := fst (fold_left (ctl_step valid bs) calls ([], s0)) in
   let enabled := last calls false in
-  let fired := filter (fun b => N.eqb (b_crontab b) c) bs in
+  let fired := filter (fun b => ct_eqb (b_crontab b) c) bs in
   Permutation (handle_event c m) (if enabled then map info_of_binding fired else [])
   /\ can_handle c m = (if enabled then negb (is_nil fired) else false)
   /\ Permutation (map (task_of_info h) (handle_event c m))
@@ -79,23 +87,83 @@ Theorem C11_system_manager_is_induced : forall i ops s,
 Proof. exact sys_sm_induced. Qed.
 Print Assumptions C11_system_manager_is_induced.
 
+(* what a cron entry sends when it fires is the string it is filed under in Entries (so
+   the registry, the cron library and the channel agree on the identity of a crontab) *)
+Theorem C11_entry_sends_its_key : forall valid h e c,
+  In (e, c) (cron (sm_run valid h)) ->
+  valid c = true /\ exists ids, entries (sm_run valid h) c = Some (e, ids).
+Proof. exact entry_sends_key. Qed.
+Print Assumptions C11_entry_sends_its_key.
+
+(* two different strings - in particular two spellings of one schedule - that are parsable
+   and registered have two different cron entries, each sending its own string *)
+Theorem C11_distinct_strings_fire_separately : forall valid h c c' i i',
+  c <> c' -> valid c = true -> valid c' = true ->
+  In (c, i) (registered h) -> In (c', i') (registered h) ->
+  exists e e', e <> e' /\ In (e, c) (cron (sm_run valid h)) /\ In (e', c') (cron (sm_run valid h)).
+Proof. exact distinct_strings_fire_separately. Qed.
+Print Assumptions C11_distinct_strings_fire_separately.
+
+(* end to end, for every configuration and after ANY sequence of operations (raw
+   Add/Remove, Enable/Disable of any hook, firings): when every registered cron entry fires
+   once - its job sends its string, hook.Manager.HandleScheduleEvent asks every hook - hook
+   h gets exactly one task for each of its bindings that is enabled and whose crontab
+   string is parsable and still has a registered id, carrying that binding's name, group,
+   allowFailure, snapshot list and queue, and no other task; however the crontabs are
+   spelled.  [st] = registry and enabled flags as the Spec tracks them. *)
+Theorem C11_round_one_task_per_binding : forall i ops h,
+  let s := fold_left (fun s o => fst (sys_step i s o)) ops (sys_init i) in
+  let st := fold_left (spec_step (i_hooks i)) ops (spec_init (i_hooks i)) in
+  let bs := nth h (i_hooks i) [] in
+  NoDup (map b_id bs) ->
+  Permutation
+    (map (task_of_info (N.of_nat h)) (snd (tick_hook (map snd (cron (s_sm s))) (nth h (s_links s) []))))
+    (if nth h (snd st) false
+     then map (task_of_binding (N.of_nat h))
+              (filter (fun b => fires (valid_of (i_invalid i)) (fst st) (b_crontab b)) bs)
+     else []).
+Proof. exact round_tasks. Qed.
+Print Assumptions C11_round_one_task_per_binding.
+
 (* non-vacuity.  Crontab 1 gets ids 7 and 8, 7 is removed twice, an unknown pair is
    removed, crontab 4 is unparsable: one cron entry (id 1) for crontab 1 while 8 is
    registered; after removing 8 and adding again a fresh entry (id 2).  A hook with two
    bindings on crontab 1 and one on crontab 2 (distinct ids) meets the hypothesis of
    C11_fire_exactly_bindings and a firing of crontab 1 yields two infos. *)
-Definition ex_valid (c : N) : bool := negb (N.eqb c 4).
+(* "* * * * *", the same with two spaces after the first field, "*/5 * * * *",
+   "0 * * * *", "not a crontab" *)
+Definition c1 : ct := [42; 32; 42; 32; 42; 32; 42; 32; 42]%N.
+Definition c1w : ct := [42; 32; 32; 42; 32; 42; 32; 42; 32; 42]%N.
+Definition c2 : ct := [42; 47; 53; 32; 42; 32; 42; 32; 42; 32; 42]%N.
+Definition c3 : ct := [48; 32; 42; 32; 42; 32; 42; 32; 42]%N.
+Definition c4 : ct := [110; 111; 116; 32; 97; 32; 99; 114; 111; 110; 116; 97; 98]%N.
+Definition ex_valid (c : ct) : bool := negb (ct_eqb c c4).
 Definition ex_bs : list binding :=
-  [ mkB 11 1 101 0 false [] 0; mkB 12 2 102 5 true [101] 3; mkB 13 1 103 5 false [101; 102] 0 ]%N.
+  [ mkB 11 c1 101 0 false [] 0; mkB 12 c2 102 5 true [101] 3; mkB 13 c1 103 5 false [101; 102] 0 ]%N.
+(* two hooks; the second spells the first one's crontab with a double space, and has a
+   second binding spelled like the first hook's *)
+Definition ex_in : input :=
+  mkIn [ [mkB 11 c1 101 0 false [] 0]; [mkB 21 c1w 201 0 true [101] 2; mkB 22 c1 202 0 false [] 0] ]%N
+       [c4] [c1; c1w] [OEnable 0; OEnable 1; ODisable 0]%N.
 
 Example C11_hyp_met :
-  cron (sm_run ex_valid [Add 1 7; Add 1 8; Add 1 7; Remove 1 7; Remove 1 7; Remove 3 9; Add 4 7]%N) = [(1, 1)]%N
-  /\ registered [Add 1 7; Add 1 8; Add 1 7; Remove 1 7; Remove 1 7; Remove 3 9; Add 4 7]%N = [(1, 8); (4, 7)]%N
-  /\ cron (sm_run ex_valid [Add 1 7; Add 1 8; Remove 1 7; Remove 1 8; Add 1 8]%N) = [(2, 1)]%N
+  cron (sm_run ex_valid [Add c1 7; Add c1 8; Add c1 7; Remove c1 7; Remove c1 7; Remove c3 9; Add c4 7]%N) = [(1%N, c1)]
+  /\ registered [Add c1 7; Add c1 8; Add c1 7; Remove c1 7; Remove c1 7; Remove c3 9; Add c4 7]%N = [(c1, 8%N); (c4, 7%N)]
+  /\ cron (sm_run ex_valid [Add c1 7; Add c1 8; Remove c1 7; Remove c1 8; Add c1 8]%N) = [(2%N, c1)]
   /\ NoDup (map b_id ex_bs)
-  /\ handle_event 1 (fst (fold_left (ctl_step ex_valid ex_bs) [true; false; true] ([], sm_init)))
-     = [info_of_binding (mkB 11 1 101 0 false [] 0); info_of_binding (mkB 13 1 103 5 false [101; 102] 0)]%N.
+  /\ handle_event c1 (fst (fold_left (ctl_step ex_valid ex_bs) [true; false; true] ([], sm_init)))
+     = [info_of_binding (mkB 11 c1 101 0 false [] 0); info_of_binding (mkB 13 c1 103 5 false [101; 102] 0)]%N
+  (* spellings: c1 <> c1w, both parsable, both registered: two cron entries, each sends its own string *)
+  /\ c1 <> c1w
+  /\ cron (sm_run ex_valid [Add c1 7; Add c1w 8]%N) = [(1%N, c1); (2%N, c1w)]
+  (* after enabling both hooks and disabling the first, a round gives hook 1 one task per
+     binding - the double-spaced one included - and hook 0 none *)
+  /\ (let s := fold_left (fun s o => fst (sys_step ex_in s o)) (i_ops ex_in) (sys_init ex_in) in
+      cron (s_sm s) = [(1%N, c1); (2%N, c1w)]
+      /\ map (fun m => map (task_of_info 1) (snd (tick_hook (map snd (cron (s_sm s))) m))) (s_links s)
+         = [ []; [task_of_binding 1 (mkB 22 c1 202 0 false [] 0); task_of_binding 1 (mkB 21 c1w 201 0 true [101] 2)] ]%N)
+  /\ NoDup (map b_id (nth 1 (i_hooks ex_in) [])).
 Proof.
-  repeat split; try (vm_compute; reflexivity).
-  apply nodupb_NoDup. vm_compute. reflexivity.
+  repeat split; try (vm_compute; reflexivity); try (apply nodupb_NoDup; vm_compute; reflexivity).
+  discriminate.
 Qed.
